@@ -379,7 +379,8 @@ func genC07Dbus(t *rapid.T) C07Dbus {
 	c.Indent = pick(t, "indent", []string{"  ", "    "})
 	c.Args["bus"] = pick(t, "bus", []string{"system", "session", "accessibility"})
 	c.Args["name"] = pick(t, "name", []string{"org.freedesktop.NetworkManager", "org.gnome.Shell", "org.a", "com.example.Foo_Bar.Baz1", "org.mpris.MediaPlayer2.x"})
-	if c.Action != "own" {
+	if c.Action != "own" || chance(t, "ownlabel", 4) {
+		// own takes no label (shipped: upower gives one all the same): it must not end up in a rule
 		c.Args["label"] = pick(t, "label", []string{"systemd-logind", "gnome-shell", "@{p_systemd}", "foo//bar", `"{a,b}"`})
 	}
 	if chance(t, "path", 2) {
@@ -550,7 +551,8 @@ func genC07Set(t *rapid.T, kind string) C07Set {
 		if j == at {
 			s.Host = append(s.Host, directive)
 		} else {
-			s.Host = append(s.Host, pick(t, "hostline", []string{"  /etc/host.conf r,", "  capability net_admin,", "  @{bin}/sh rix,", "  # host comment", "", "  network netlink raw,"}))
+			s.Host = append(s.Host, pick(t, "hostline", []string{"  /etc/host.conf r,", "  capability net_admin,", "  @{bin}/sh rix,", "  # host comment", "", "  network netlink raw,",
+				"  profile sub {\n    include <abstractions/base>\n\n    /etc/sub.conf r,\n\n    include if exists <local/host_sub>\n  }"}))
 		}
 	}
 	return s
